@@ -8,7 +8,7 @@ from bounded.c14 import mgu, apply, show, canon, _listnorm
 from bounded.pipeline import pmap
 from bounded.util import Collector, classify_exception
 
-CONSTS = ["a", "b", "c", "1", "2"]
+CONSTS = ["a", "b", "c", "1", "2", "-1"]
 
 
 # ---------------------------------------------------------------- reference SLD
@@ -127,23 +127,58 @@ def gen_program(rng, recursive):
         if k < 0.2:
             # the same predicate called with a repeated variable and, afterwards, with distinct ones (and the other
             # way round): the two call patterns must not share their tabled answers
-            if rng.random() < 0.5:
+            r2 = rng.random()
+            if r2 < 0.3:
                 prog.append((T("q", V("X"), V("Z")), [T("p", V("X"), V("X")), T("p", V("Y"), V("Z"))]))
-            else:
+            elif r2 < 0.6:
                 prog.append((T("q", V("X"), V("Z")), [T("p", V("Y"), V("Z")), T("p", V("X"), V("X"))]))
+            else:
+                # ... and with a constant where the other call has its (renumbered) variable: p(X,X) is tabled as
+                # p(-1,-1), and -1 is also an integer
+                c = C(rng.choice(["-1", "-1", "-2", "a", "1"]))
+                lits = [T("p", V("X"), V("X")), T("p", V("Z"), c)]
+                rng.shuffle(lits)
+                prog.append((T("q", V("X"), V("Z")), lits))
+                prog.append((T("p", C(rng.choice(["1", "a", "-1"])), C("-1")), []))
             goal = T("q", V("A"), V("B"))
         elif k < 0.4:
             prog.append((T("q", V("X"), V("Z")), [T("p", V("X"), V("Y")), T("p", V("Y"), V("Z"))]))
             goal = T("q", V("A"), V("B"))
-        elif k < 0.7:
+        elif k < 0.58:
             prog.append((T("q", V("X"), V("Y")), [T("p", V("X"), V("Y")), ("not", T("e", V("Y")))]))
             prog.append((T("q", V("X"), V("X")), [T("e", V("X"))]))
             goal = T("q", V("A"), V("B"))
-        else:
+        elif k < 0.8:
             c = C(rng.choice(CONSTS))
-            goal = T("p", c, V("B")) if rng.random() < 0.5 else T("p", V("A"), c)
+            goal = rng.choice([T("p", c, V("B")), T("p", V("A"), c), T("p", V("A"), V("B"))])
+        elif k < 0.9:
+            # several anonymous variables inside one negation: each `_` is a variable of its own
+            for _ in range(rng.randint(1, 2)):
+                a, b = rng.sample(CONSTS, 2) if rng.random() < 0.8 else [rng.choice(CONSTS)] * 2
+                prog.append((T("w", C(a), C(b)), []))
+            prog.append((T("q", V("X"), V("Y")), [T("p", V("X"), V("Y")), ("not", T("w", ANON(), ANON()))]))
+            prog.append((T("q", V("X"), V("X")), [T("e", V("X")), ("not", T("w", V("X"), ANON()))]))
+            goal = T("q", V("A"), V("B"))
+        else:
+            # several anonymous variables inside one findall goal
+            for _ in range(rng.randint(2, 5)):
+                prog.append((T("s", *[C(rng.choice(CONSTS)) for _ in range(4)]), []))
+            goal = T("s", V("A"), V("B"), ANON(), ANON())
     rng.shuffle(prog) if not recursive else None
     return prog, goal
+
+
+_ANON = [0]
+
+
+def ANON():
+    """A fresh variable that is written `_` in the program text."""
+    _ANON[0] += 1
+    return V("_G%d" % _ANON[0])
+
+
+def _anon_text(text):
+    return re.sub(r"\b_G\d+(_\d+)?\b", "_", text)
 
 
 def clause_str(cl):
@@ -158,10 +193,16 @@ def check(payload):
     from problog.program import PrologString
     from problog.engine import DefaultEngine
     from problog.logic import Term
-    src = "\n".join(clause_str(c) for c in prog) + "\n"
+    src = _anon_text("\n".join(clause_str(c) for c in prog) + "\n")
     template = T("r", V("A"), V("B"))
-    out = dict(case=src + "?- " + show(goal), violations=[], nontrivial=False)
-    wrapper = src + "all(L) :- findall(%s, %s, L).\n" % (show(template), show(goal))
+    # in a third of the cases another findall over the same facts (with another call pattern) runs first in the same query
+    first = ""
+    pfacts = [h for h, b in prog if not b and h[1] == "p" and h[2][0][0] == "c"]
+    if not recursive and len(src) % 3 != 0 and pfacts:
+        # (the first argument of the last p/2 fact: the earlier findall meets a later fact first)
+        first = "findall(Y, p(%s,Y), _), " % show(pfacts[-1][2][0])
+    out = dict(case=src + "?- " + first + _anon_text(show(goal)), violations=[], nontrivial=False)
+    wrapper = src + "all(L) :- %sfindall(%s, %s, L).\n" % (first, show(template), _anon_text(show(goal)))
     try:
         e = DefaultEngine()
         db = e.prepare(PrologString(wrapper))
@@ -169,7 +210,15 @@ def check(payload):
         if len(res) != 1:
             out["violations"].append(("findall-answers", "findall has %d answers" % len(res)))
             return out
-        got = _listnorm(canon(str(res[0][0])).replace("[", "LB").replace("]", "RB"))
+        # (unbound variables of an answer are raw negative integers: give them names, so that they cannot be
+        # confused with negative integer constants in the printed answer)
+        class _Names(object):
+            def __getitem__(self, k):
+                from problog.logic import Var
+                return Var("Q%d" % -k) if type(k) == int else (Var("Q0") if k is None else Var(k))
+        ans = res[0][0]
+        ans = ans.apply(_Names()) if hasattr(ans, "apply") else ans
+        got = _listnorm(canon(str(ans), False).replace("[", "LB").replace("]", "RB"))
     except Exception as ex:      # noqa
         out["violations"].append(("exception:" + classify_exception(ex).split(":", 1)[1], classify_exception(ex)))
         return out
@@ -188,22 +237,38 @@ def check(payload):
         out["skip"] = True
         return out
     # answers are compared one by one up to renaming of the variables inside each answer
-    exp_items = [_listnorm(canon(show(x)).replace("[", "LB").replace("]", "RB")) for x in exp]
-    got_items = [canon(x) for x in _items(got)]
+    exp_items = [_listnorm(canon(show(x), False).replace("[", "LB").replace("]", "RB")) for x in exp]
+    got_items = [canon(x, False) for x in _items(got)]
     out["nontrivial"] = len(exp_items) > 1
     if sorted(got_items) != sorted(exp_items):
         out["violations"].append(("answers", "findall gives %s, Prolog gives %s" % (got_items, exp_items)))
     elif got_items != exp_items:
-        texts = [clause_str(c) for c in prog]
-        dup = len(set(texts)) < len(texts)
-        # the class is a property of the deviation, not of the program: some answer is non-ground (the known
-        # finding is about non-ground answers being tabled apart from ground ones)
-        varhead = any(re.search(r"\bV\d+\b", x) for x in exp_items)
-        hasneg = any(b[0] == "not" for _, body in prog for b in body)
-        out["violations"].append(("findall-order:duplicate-clauses" if dup else
-                                  ("findall-order:variable-headed-facts" if varhead else
-                                   ("findall-order:negation" if hasneg else "findall-order")),
-                                  "findall gives %s, Prolog's SLD order is %s" % (got_items, exp_items)))
+        # The three listed known findings.  They are decided on the part of the program the goal can reach (a
+        # duplicate clause, a variable-headed fact or a negation elsewhere in the program excuses nothing) and, for the
+        # second one, on the answers (some answer is non-ground).
+        reach, todo = set(), [goal[1]]
+        while todo:
+            f = todo.pop()
+            if f in reach:
+                continue
+            reach.add(f)
+            for h, b in prog:
+                if h[1] == f:
+                    todo += [(x[1][1] if x[0] == "not" else x[1]) for x in b]
+        rel = [c for c in prog if c[0][1] in reach]
+        texts = [clause_str(c) for c in rel]
+        if len(set(texts)) < len(texts):
+            klass = "findall-order:duplicate-clauses"
+        elif any(re.search(r"\bV\d+\b", x) for x in exp_items):
+            klass = "findall-order:variable-headed-facts"
+        elif any(b[0] == "not" for _, body in rel for b in body):
+            klass = "findall-order:negation"
+        elif any(len([b for b in body if b[0] != "not"]) != len(set(b[1] for b in body if b[0] != "not")) for _, body in rel):
+            # a reachable rule calls the same predicate twice: the same facts take part in several proofs
+            klass = "findall-order:self-join"
+        else:
+            klass = "findall-order"
+        out["violations"].append((klass, "findall gives %s, Prolog's SLD order is %s" % (got_items, exp_items)))
     return out
 
 
@@ -230,7 +295,7 @@ def _items(consform):
 
 def run(pid, tier, seed):
     rng = random.Random(seed * 733 + 13)
-    n = 3000 if tier == "thorough" else 400
+    n = 10000 if tier == "thorough" else 2500
     payloads = []
     for i in range(n):
         rec = i % 4 == 0
